@@ -6,6 +6,8 @@ From FT.lib Require Import Num Arr ArrLemmas NumArr.
 From FT.gen Require Import Common Interp2d Interp3d Vinterp2d Vinterp3d Fteik2d Fteik3d Ray2d Ray3d.
 From FT.proofs Require Import NumFLaws SafetyTools Safety2d SafetyInterp Ray2dProofs.
 From FT.proofs Require Safety3d Ray3dProofs RaySafety2d RaySafety3d RaySafetyExtra SafetySolveTools SafetySolve2d SafetySolve3d TruncLawsF.
+From FT.model Require Import Api.
+From FT.proofs Require ApiGenEq.
 Import ListNotations.
 Open Scope Z_scope.
 
@@ -503,6 +505,740 @@ Theorem C12_gradient_assembly_ok_3d :
        fteik3d_p1_ok true false dx dy dz grad i j k nx ny nz tt ttgrad ttsgn = true.
 Proof. exact @SafetySolve3d.fteik3d_p1_ok_true. Qed.
 
+(* the precondition of the interpolator safety theorems, on the API side (extracted from _base.py on every run): the axis handed to the kernels has one node per sample of the grid's CURRENT shape along that axis (origin + spacing * k, k < shape[0]) ... *)
+Theorem C12_axes_have_the_length_of_the_current_shape_2d_z :
+  forall (T : Type) (N : Num T) (origin gridsize : list T) (shape : list Z),
+       ApiGen.axis_2d_zaxis origin gridsize shape =
+       axis_nodes (nth 0 origin (nofZ 0)) (nth 0 gridsize (nofZ 0)) (nth 0 shape 0).
+Proof. exact @ApiGenEq.gen_axis_2d_zaxis_eq_gen. Qed.
+
+(* second axis *)
+Theorem C12_axes_have_the_length_of_the_current_shape_2d_x :
+  forall (T : Type) (N : Num T) (origin gridsize : list T) (shape : list Z),
+       ApiGen.axis_2d_xaxis origin gridsize shape =
+       axis_nodes (nth 1 origin (nofZ 0)) (nth 1 gridsize (nofZ 0)) (nth 1 shape 0).
+Proof. exact @ApiGenEq.gen_axis_2d_xaxis_eq_gen. Qed.
+
+(* 3D, third axis *)
+Theorem C12_axes_have_the_length_of_the_current_shape_3d_y :
+  forall (T : Type) (N : Num T) (origin gridsize : list T) (shape : list Z),
+       ApiGen.axis_3d_yaxis origin gridsize shape =
+       axis_nodes (nth 2 origin (nofZ 0)) (nth 2 gridsize (nofZ 0)) (nth 2 shape 0).
+Proof. exact @ApiGenEq.gen_axis_3d_yaxis_eq_gen. Qed.
+
+(* ... and is computed from the stored attributes on every access (no cached copy that could survive resample) *)
+Theorem C12_axes_are_computed_from_stored_attributes_on_every_access :
+  ApiGen.basegrid_init =
+       [(String.String (Ascii.Ascii true true true true true false true false)
+           (String.String (Ascii.Ascii true true true false false true true false)
+              (String.String (Ascii.Ascii false true false false true true true false)
+                 (String.String (Ascii.Ascii true false false true false true true false)
+                    (String.String (Ascii.Ascii false false true false false true true false) String.EmptyString)))),
+         String.String (Ascii.Ascii false true true true false true true false)
+           (String.String (Ascii.Ascii false false false false true true true false)
+              (String.String (Ascii.Ascii false true true true false true false false)
+                 (String.String (Ascii.Ascii true false false false false true true false)
+                    (String.String (Ascii.Ascii true true false false true true true false)
+                       (String.String (Ascii.Ascii true false false false false true true false)
+                          (String.String (Ascii.Ascii false true false false true true true false)
+                             (String.String (Ascii.Ascii false true false false true true true false)
+                                (String.String (Ascii.Ascii true false false false false true true false)
+                                   (String.String (Ascii.Ascii true false false true true true true false)
+                                      (String.String (Ascii.Ascii false false false true false true false false)
+                                         (String.String (Ascii.Ascii true true true false false true true false)
+                                            (String.String (Ascii.Ascii false true false false true true true false)
+                                               (String.String (Ascii.Ascii true false false true false true true false)
+                                                  (String.String
+                                                     (Ascii.Ascii false false true false false true true false)
+                                                     (String.String
+                                                        (Ascii.Ascii false false true true false true false false)
+                                                        (String.String
+                                                           (Ascii.Ascii false false false false false true false false)
+                                                           (String.String
+                                                              (Ascii.Ascii false false true false false true true false)
+                                                              (String.String
+                                                                 (Ascii.Ascii false false true false true true true
+                                                                    false)
+                                                                 (String.String
+                                                                    (Ascii.Ascii true false false true true true true
+                                                                       false)
+                                                                    (String.String
+                                                                       (Ascii.Ascii false false false false true true
+                                                                          true false)
+                                                                       (String.String
+                                                                          (Ascii.Ascii true false true false false true
+                                                                             true false)
+                                                                          (String.String
+                                                                             (Ascii.Ascii true false true true true
+                                                                                true false false)
+                                                                             (String.String
+                                                                                (Ascii.Ascii false true true true false
+                                                                                   true true false)
+                                                                                (String.String
+                                                                                   (Ascii.Ascii false false false false
+                                                                                      true true true false)
+                                                                                   (String.String
+                                                                                      (Ascii.Ascii false true true true
+                                                                                         false true false false)
+                                                                                      (String.String
+                                                                                         (Ascii.Ascii false true true
+                                                                                          false false true true false)
+                                                                                         (String.String
+                                                                                          (Ascii.Ascii false false true
+                                                                                          true false true true false)
+                                                                                          (String.String
+                                                                                          (Ascii.Ascii true true true
+                                                                                          true false true true false)
+                                                                                          (String.String
+                                                                                          (Ascii.Ascii true false false
+                                                                                          false false true true false)
+                                                                                          (String.String
+                                                                                          (Ascii.Ascii false false true
+                                                                                          false true true true false)
+                                                                                          (String.String
+                                                                                          (Ascii.Ascii false true true
+                                                                                          false true true false false)
+                                                                                          (String.String
+                                                                                          (Ascii.Ascii false false true
+                                                                                          false true true false false)
+                                                                                          (String.String
+                                                                                          (Ascii.Ascii true false false
+                                                                                          true false true false false)
+                                                                                          String.EmptyString))))))))))))))))))))))))))))))))));
+        (String.String (Ascii.Ascii true true true true true false true false)
+           (String.String (Ascii.Ascii true true true false false true true false)
+              (String.String (Ascii.Ascii false true false false true true true false)
+                 (String.String (Ascii.Ascii true false false true false true true false)
+                    (String.String (Ascii.Ascii false false true false false true true false)
+                       (String.String (Ascii.Ascii true true false false true true true false)
+                          (String.String (Ascii.Ascii true false false true false true true false)
+                             (String.String (Ascii.Ascii false true false true true true true false)
+                                (String.String (Ascii.Ascii true false true false false true true false)
+                                   String.EmptyString)))))))),
+         String.String (Ascii.Ascii false false true false true true true false)
+           (String.String (Ascii.Ascii true false true false true true true false)
+              (String.String (Ascii.Ascii false false false false true true true false)
+                 (String.String (Ascii.Ascii false false true true false true true false)
+                    (String.String (Ascii.Ascii true false true false false true true false)
+                       (String.String (Ascii.Ascii false false false true false true false false)
+                          (String.String (Ascii.Ascii false false false true false true false false)
+                             (String.String (Ascii.Ascii false true true false false true true false)
+                                (String.String (Ascii.Ascii false false true true false true true false)
+                                   (String.String (Ascii.Ascii true true true true false true true false)
+                                      (String.String (Ascii.Ascii true false false false false true true false)
+                                         (String.String (Ascii.Ascii false false true false true true true false)
+                                            (String.String (Ascii.Ascii false false false true false true false false)
+                                               (String.String (Ascii.Ascii false false false true true true true false)
+                                                  (String.String
+                                                     (Ascii.Ascii true false false true false true false false)
+                                                     (String.String
+                                                        (Ascii.Ascii false false false false false true false false)
+                                                        (String.String
+                                                           (Ascii.Ascii false true true false false true true false)
+                                                           (String.String
+                                                              (Ascii.Ascii true true true true false true true false)
+                                                              (String.String
+                                                                 (Ascii.Ascii false true false false true true true
+                                                                    false)
+                                                                 (String.String
+                                                                    (Ascii.Ascii false false false false false true
+                                                                       false false)
+                                                                    (String.String
+                                                                       (Ascii.Ascii false false false true true true
+                                                                          true false)
+                                                                       (String.String
+                                                                          (Ascii.Ascii false false false false false
+                                                                             true false false)
+                                                                          (String.String
+                                                                             (Ascii.Ascii true false false true false
+                                                                                true true false)
+                                                                             (String.String
+                                                                                (Ascii.Ascii false true true true false
+                                                                                   true true false)
+                                                                                (String.String
+                                                                                   (Ascii.Ascii false false false false
+                                                                                      false true false false)
+                                                                                   (String.String
+                                                                                      (Ascii.Ascii true true true false
+                                                                                         false true true false)
+                                                                                      (String.String
+                                                                                         (Ascii.Ascii false true false
+                                                                                          false true true true false)
+                                                                                         (String.String
+                                                                                          (Ascii.Ascii true false false
+                                                                                          true false true true false)
+                                                                                          (String.String
+                                                                                          (Ascii.Ascii false false true
+                                                                                          false false true true false)
+                                                                                          (String.String
+                                                                                          (Ascii.Ascii true true false
+                                                                                          false true true true false)
+                                                                                          (String.String
+                                                                                          (Ascii.Ascii true false false
+                                                                                          true false true true false)
+                                                                                          (String.String
+                                                                                          (Ascii.Ascii false true false
+                                                                                          true true true true false)
+                                                                                          (String.String
+                                                                                          (Ascii.Ascii true false true
+                                                                                          false false true true false)
+                                                                                          (String.String
+                                                                                          (Ascii.Ascii true false false
+                                                                                          true false true false false)
+                                                                                          (String.String
+                                                                                          (Ascii.Ascii true false false
+                                                                                          true false true false false)
+                                                                                          String.EmptyString)))))))))))))))))))))))))))))))))));
+        (String.String (Ascii.Ascii true true true true true false true false)
+           (String.String (Ascii.Ascii true true true true false true true false)
+              (String.String (Ascii.Ascii false true false false true true true false)
+                 (String.String (Ascii.Ascii true false false true false true true false)
+                    (String.String (Ascii.Ascii true true true false false true true false)
+                       (String.String (Ascii.Ascii true false false true false true true false)
+                          (String.String (Ascii.Ascii false true true true false true true false) String.EmptyString)))))),
+         String.String (Ascii.Ascii false true true true false true true false)
+           (String.String (Ascii.Ascii false false false false true true true false)
+              (String.String (Ascii.Ascii false true true true false true false false)
+                 (String.String (Ascii.Ascii true false false false false true true false)
+                    (String.String (Ascii.Ascii true true false false true true true false)
+                       (String.String (Ascii.Ascii true false false false false true true false)
+                          (String.String (Ascii.Ascii false true false false true true true false)
+                             (String.String (Ascii.Ascii false true false false true true true false)
+                                (String.String (Ascii.Ascii true false false false false true true false)
+                                   (String.String (Ascii.Ascii true false false true true true true false)
+                                      (String.String (Ascii.Ascii false false false true false true false false)
+                                         (String.String (Ascii.Ascii true true true true false true true false)
+                                            (String.String (Ascii.Ascii false true false false true true true false)
+                                               (String.String (Ascii.Ascii true false false true false true true false)
+                                                  (String.String
+                                                     (Ascii.Ascii true true true false false true true false)
+                                                     (String.String
+                                                        (Ascii.Ascii true false false true false true true false)
+                                                        (String.String
+                                                           (Ascii.Ascii false true true true false true true false)
+                                                           (String.String
+                                                              (Ascii.Ascii false false true true false true false false)
+                                                              (String.String
+                                                                 (Ascii.Ascii false false false false false true false
+                                                                    false)
+                                                                 (String.String
+                                                                    (Ascii.Ascii false false true false false true true
+                                                                       false)
+                                                                    (String.String
+                                                                       (Ascii.Ascii false false true false true true
+                                                                          true false)
+                                                                       (String.String
+                                                                          (Ascii.Ascii true false false true true true
+                                                                             true false)
+                                                                          (String.String
+                                                                             (Ascii.Ascii false false false false true
+                                                                                true true false)
+                                                                             (String.String
+                                                                                (Ascii.Ascii true false true false
+                                                                                   false true true false)
+                                                                                (String.String
+                                                                                   (Ascii.Ascii true false true true
+                                                                                      true true false false)
+                                                                                   (String.String
+                                                                                      (Ascii.Ascii false true true true
+                                                                                         false true true false)
+                                                                                      (String.String
+                                                                                         (Ascii.Ascii false false false
+                                                                                          false true true true false)
+                                                                                         (String.String
+                                                                                          (Ascii.Ascii false true true
+                                                                                          true false true false false)
+                                                                                          (String.String
+                                                                                          (Ascii.Ascii false true true
+                                                                                          false false true true false)
+                                                                                          (String.String
+                                                                                          (Ascii.Ascii false false true
+                                                                                          true false true true false)
+                                                                                          (String.String
+                                                                                          (Ascii.Ascii true true true
+                                                                                          true false true true false)
+                                                                                          (String.String
+                                                                                          (Ascii.Ascii true false false
+                                                                                          false false true true false)
+                                                                                          (String.String
+                                                                                          (Ascii.Ascii false false true
+                                                                                          false true true true false)
+                                                                                          (String.String
+                                                                                          (Ascii.Ascii false true true
+                                                                                          false true true false false)
+                                                                                          (String.String
+                                                                                          (Ascii.Ascii false false true
+                                                                                          false true true false false)
+                                                                                          (String.String
+                                                                                          (Ascii.Ascii true false false
+                                                                                          true false true false false)
+                                                                                          String.EmptyString))))))))))))))))))))))))))))))))))))] /\
+       ApiGen.basegrid_props =
+       [(String.String (Ascii.Ascii true true true false false true true false)
+           (String.String (Ascii.Ascii false true false false true true true false)
+              (String.String (Ascii.Ascii true false false true false true true false)
+                 (String.String (Ascii.Ascii false false true false false true true false) String.EmptyString))),
+         String.String (Ascii.Ascii true true false false true true true false)
+           (String.String (Ascii.Ascii true false true false false true true false)
+              (String.String (Ascii.Ascii false false true true false true true false)
+                 (String.String (Ascii.Ascii false true true false false true true false)
+                    (String.String (Ascii.Ascii false true true true false true false false)
+                       (String.String (Ascii.Ascii true true true true true false true false)
+                          (String.String (Ascii.Ascii true true true false false true true false)
+                             (String.String (Ascii.Ascii false true false false true true true false)
+                                (String.String (Ascii.Ascii true false false true false true true false)
+                                   (String.String (Ascii.Ascii false false true false false true true false)
+                                      String.EmptyString))))))))));
+        (String.String (Ascii.Ascii true true true false false true true false)
+           (String.String (Ascii.Ascii false true false false true true true false)
+              (String.String (Ascii.Ascii true false false true false true true false)
+                 (String.String (Ascii.Ascii false false true false false true true false)
+                    (String.String (Ascii.Ascii true true false false true true true false)
+                       (String.String (Ascii.Ascii true false false true false true true false)
+                          (String.String (Ascii.Ascii false true false true true true true false)
+                             (String.String (Ascii.Ascii true false true false false true true false)
+                                String.EmptyString))))))),
+         String.String (Ascii.Ascii true true false false true true true false)
+           (String.String (Ascii.Ascii true false true false false true true false)
+              (String.String (Ascii.Ascii false false true true false true true false)
+                 (String.String (Ascii.Ascii false true true false false true true false)
+                    (String.String (Ascii.Ascii false true true true false true false false)
+                       (String.String (Ascii.Ascii true true true true true false true false)
+                          (String.String (Ascii.Ascii true true true false false true true false)
+                             (String.String (Ascii.Ascii false true false false true true true false)
+                                (String.String (Ascii.Ascii true false false true false true true false)
+                                   (String.String (Ascii.Ascii false false true false false true true false)
+                                      (String.String (Ascii.Ascii true true false false true true true false)
+                                         (String.String (Ascii.Ascii true false false true false true true false)
+                                            (String.String (Ascii.Ascii false true false true true true true false)
+                                               (String.String (Ascii.Ascii true false true false false true true false)
+                                                  String.EmptyString))))))))))))));
+        (String.String (Ascii.Ascii true true true true false true true false)
+           (String.String (Ascii.Ascii false true false false true true true false)
+              (String.String (Ascii.Ascii true false false true false true true false)
+                 (String.String (Ascii.Ascii true true true false false true true false)
+                    (String.String (Ascii.Ascii true false false true false true true false)
+                       (String.String (Ascii.Ascii false true true true false true true false) String.EmptyString))))),
+         String.String (Ascii.Ascii true true false false true true true false)
+           (String.String (Ascii.Ascii true false true false false true true false)
+              (String.String (Ascii.Ascii false false true true false true true false)
+                 (String.String (Ascii.Ascii false true true false false true true false)
+                    (String.String (Ascii.Ascii false true true true false true false false)
+                       (String.String (Ascii.Ascii true true true true true false true false)
+                          (String.String (Ascii.Ascii true true true true false true true false)
+                             (String.String (Ascii.Ascii false true false false true true true false)
+                                (String.String (Ascii.Ascii true false false true false true true false)
+                                   (String.String (Ascii.Ascii true true true false false true true false)
+                                      (String.String (Ascii.Ascii true false false true false true true false)
+                                         (String.String (Ascii.Ascii false true true true false true true false)
+                                            String.EmptyString))))))))))));
+        (String.String (Ascii.Ascii true true false false true true true false)
+           (String.String (Ascii.Ascii false false false true false true true false)
+              (String.String (Ascii.Ascii true false false false false true true false)
+                 (String.String (Ascii.Ascii false false false false true true true false)
+                    (String.String (Ascii.Ascii true false true false false true true false) String.EmptyString)))),
+         String.String (Ascii.Ascii true true false false true true true false)
+           (String.String (Ascii.Ascii true false true false false true true false)
+              (String.String (Ascii.Ascii false false true true false true true false)
+                 (String.String (Ascii.Ascii false true true false false true true false)
+                    (String.String (Ascii.Ascii false true true true false true false false)
+                       (String.String (Ascii.Ascii true true true true true false true false)
+                          (String.String (Ascii.Ascii true true true false false true true false)
+                             (String.String (Ascii.Ascii false true false false true true true false)
+                                (String.String (Ascii.Ascii true false false true false true true false)
+                                   (String.String (Ascii.Ascii false false true false false true true false)
+                                      (String.String (Ascii.Ascii false true true true false true false false)
+                                         (String.String (Ascii.Ascii true true false false true true true false)
+                                            (String.String (Ascii.Ascii false false false true false true true false)
+                                               (String.String
+                                                  (Ascii.Ascii true false false false false true true false)
+                                                  (String.String
+                                                     (Ascii.Ascii false false false false true true true false)
+                                                     (String.String
+                                                        (Ascii.Ascii true false true false false true true false)
+                                                        String.EmptyString))))))))))))))))].
+Proof. exact @ApiGenEq.gen_basegrid_storage. Qed.
+
+(* the call hands these axes together with the object's own grid *)
+Theorem C12_evaluation_hands_axes_and_grid_of_the_same_object_2d :
+  ApiGen.call_2d_binding =
+       [(String.String (Ascii.Ascii false false false true true true true false) String.EmptyString,
+         String.String (Ascii.Ascii true true false false true true true false)
+           (String.String (Ascii.Ascii true false true false false true true false)
+              (String.String (Ascii.Ascii false false true true false true true false)
+                 (String.String (Ascii.Ascii false true true false false true true false)
+                    (String.String (Ascii.Ascii false true true true false true false false)
+                       (String.String (Ascii.Ascii false true false true true true true false)
+                          (String.String (Ascii.Ascii true false false false false true true false)
+                             (String.String (Ascii.Ascii false false false true true true true false)
+                                (String.String (Ascii.Ascii true false false true false true true false)
+                                   (String.String (Ascii.Ascii true true false false true true true false)
+                                      String.EmptyString))))))))));
+        (String.String (Ascii.Ascii true false false true true true true false) String.EmptyString,
+         String.String (Ascii.Ascii true true false false true true true false)
+           (String.String (Ascii.Ascii true false true false false true true false)
+              (String.String (Ascii.Ascii false false true true false true true false)
+                 (String.String (Ascii.Ascii false true true false false true true false)
+                    (String.String (Ascii.Ascii false true true true false true false false)
+                       (String.String (Ascii.Ascii false false false true true true true false)
+                          (String.String (Ascii.Ascii true false false false false true true false)
+                             (String.String (Ascii.Ascii false false false true true true true false)
+                                (String.String (Ascii.Ascii true false false true false true true false)
+                                   (String.String (Ascii.Ascii true true false false true true true false)
+                                      String.EmptyString))))))))));
+        (String.String (Ascii.Ascii false true true false true true true false) String.EmptyString,
+         String.String (Ascii.Ascii true true false false true true true false)
+           (String.String (Ascii.Ascii true false true false false true true false)
+              (String.String (Ascii.Ascii false false true true false true true false)
+                 (String.String (Ascii.Ascii false true true false false true true false)
+                    (String.String (Ascii.Ascii false true true true false true false false)
+                       (String.String (Ascii.Ascii true true true true true false true false)
+                          (String.String (Ascii.Ascii true true true false false true true false)
+                             (String.String (Ascii.Ascii false true false false true true true false)
+                                (String.String (Ascii.Ascii true false false true false true true false)
+                                   (String.String (Ascii.Ascii false false true false false true true false)
+                                      String.EmptyString))))))))));
+        (String.String (Ascii.Ascii true false false false true true true false) String.EmptyString,
+         String.String (Ascii.Ascii false true true true false true true false)
+           (String.String (Ascii.Ascii false false false false true true true false)
+              (String.String (Ascii.Ascii false true true true false true false false)
+                 (String.String (Ascii.Ascii true false false false false true true false)
+                    (String.String (Ascii.Ascii true true false false true true true false)
+                       (String.String (Ascii.Ascii true false false false false true true false)
+                          (String.String (Ascii.Ascii false true false false true true true false)
+                             (String.String (Ascii.Ascii false true false false true true true false)
+                                (String.String (Ascii.Ascii true false false false false true true false)
+                                   (String.String (Ascii.Ascii true false false true true true true false)
+                                      (String.String (Ascii.Ascii false false false true false true false false)
+                                         (String.String (Ascii.Ascii false false false false true true true false)
+                                            (String.String (Ascii.Ascii true true true true false true true false)
+                                               (String.String (Ascii.Ascii true false false true false true true false)
+                                                  (String.String
+                                                     (Ascii.Ascii false true true true false true true false)
+                                                     (String.String
+                                                        (Ascii.Ascii false false true false true true true false)
+                                                        (String.String
+                                                           (Ascii.Ascii true true false false true true true false)
+                                                           (String.String
+                                                              (Ascii.Ascii false false true true false true false false)
+                                                              (String.String
+                                                                 (Ascii.Ascii false false false false false true false
+                                                                    false)
+                                                                 (String.String
+                                                                    (Ascii.Ascii false false true false false true true
+                                                                       false)
+                                                                    (String.String
+                                                                       (Ascii.Ascii false false true false true true
+                                                                          true false)
+                                                                       (String.String
+                                                                          (Ascii.Ascii true false false true true true
+                                                                             true false)
+                                                                          (String.String
+                                                                             (Ascii.Ascii false false false false true
+                                                                                true true false)
+                                                                             (String.String
+                                                                                (Ascii.Ascii true false true false
+                                                                                   false true true false)
+                                                                                (String.String
+                                                                                   (Ascii.Ascii true false true true
+                                                                                      true true false false)
+                                                                                   (String.String
+                                                                                      (Ascii.Ascii false true true true
+                                                                                         false true true false)
+                                                                                      (String.String
+                                                                                         (Ascii.Ascii false false false
+                                                                                          false true true true false)
+                                                                                         (String.String
+                                                                                          (Ascii.Ascii false true true
+                                                                                          true false true false false)
+                                                                                          (String.String
+                                                                                          (Ascii.Ascii false true true
+                                                                                          false false true true false)
+                                                                                          (String.String
+                                                                                          (Ascii.Ascii false false true
+                                                                                          true false true true false)
+                                                                                          (String.String
+                                                                                          (Ascii.Ascii true true true
+                                                                                          true false true true false)
+                                                                                          (String.String
+                                                                                          (Ascii.Ascii true false false
+                                                                                          false false true true false)
+                                                                                          (String.String
+                                                                                          (Ascii.Ascii false false true
+                                                                                          false true true true false)
+                                                                                          (String.String
+                                                                                          (Ascii.Ascii false true true
+                                                                                          false true true false false)
+                                                                                          (String.String
+                                                                                          (Ascii.Ascii false false true
+                                                                                          false true true false false)
+                                                                                          (String.String
+                                                                                          (Ascii.Ascii true false false
+                                                                                          true false true false false)
+                                                                                          String.EmptyString))))))))))))))))))))))))))))))))))));
+        (String.String (Ascii.Ascii false true true false false true true false)
+           (String.String (Ascii.Ascii false true true false true true true false)
+              (String.String (Ascii.Ascii true false false false false true true false)
+                 (String.String (Ascii.Ascii false false true true false true true false) String.EmptyString))),
+         String.String (Ascii.Ascii false true true false false true true false)
+           (String.String (Ascii.Ascii true false false true false true true false)
+              (String.String (Ascii.Ascii false false true true false true true false)
+                 (String.String (Ascii.Ascii false false true true false true true false)
+                    (String.String (Ascii.Ascii true true true true true false true false)
+                       (String.String (Ascii.Ascii false true true false true true true false)
+                          (String.String (Ascii.Ascii true false false false false true true false)
+                             (String.String (Ascii.Ascii false false true true false true true false)
+                                (String.String (Ascii.Ascii true false true false true true true false)
+                                   (String.String (Ascii.Ascii true false true false false true true false)
+                                      String.EmptyString))))))))))] /\
+       fst ApiGen.call_2d_call =
+       String.String (Ascii.Ascii true false false true false true true false)
+         (String.String (Ascii.Ascii false true true true false true true false)
+            (String.String (Ascii.Ascii false false true false true true true false)
+               (String.String (Ascii.Ascii true false true false false true true false)
+                  (String.String (Ascii.Ascii false true false false true true true false)
+                     (String.String (Ascii.Ascii false false false false true true true false)
+                        (String.String (Ascii.Ascii false true false false true true false false)
+                           (String.String (Ascii.Ascii false false true false false true true false) String.EmptyString))))))) /\
+       map fst ApiGen.call_2d_binding = ApiGen.interp2d_params /\
+       map snd ApiGen.call_2d_binding = snd ApiGen.call_2d_call /\
+       ApiGen.call_2d_params =
+       [String.String (Ascii.Ascii false false false false true true true false)
+          (String.String (Ascii.Ascii true true true true false true true false)
+             (String.String (Ascii.Ascii true false false true false true true false)
+                (String.String (Ascii.Ascii false true true true false true true false)
+                   (String.String (Ascii.Ascii false false true false true true true false)
+                      (String.String (Ascii.Ascii true true false false true true true false) String.EmptyString)))));
+        String.String (Ascii.Ascii false true true false false true true false)
+          (String.String (Ascii.Ascii true false false true false true true false)
+             (String.String (Ascii.Ascii false false true true false true true false)
+                (String.String (Ascii.Ascii false false true true false true true false)
+                   (String.String (Ascii.Ascii true true true true true false true false)
+                      (String.String (Ascii.Ascii false true true false true true true false)
+                         (String.String (Ascii.Ascii true false false false false true true false)
+                            (String.String (Ascii.Ascii false false true true false true true false)
+                               (String.String (Ascii.Ascii true false true false true true true false)
+                                  (String.String (Ascii.Ascii true false true false false true true false)
+                                     (String.String (Ascii.Ascii true false true true true true false false)
+                                        (String.String (Ascii.Ascii false true true true false true true false)
+                                           (String.String (Ascii.Ascii false false false false true true true false)
+                                              (String.String (Ascii.Ascii false true true true false true false false)
+                                                 (String.String
+                                                    (Ascii.Ascii false true true true false true true false)
+                                                    (String.String
+                                                       (Ascii.Ascii true false false false false true true false)
+                                                       (String.String
+                                                          (Ascii.Ascii false true true true false true true false)
+                                                          String.EmptyString))))))))))))))))] /\
+       ApiGen.interp2d_defaults =
+       [(String.String (Ascii.Ascii false true true false false true true false)
+           (String.String (Ascii.Ascii false true true false true true true false)
+              (String.String (Ascii.Ascii true false false false false true true false)
+                 (String.String (Ascii.Ascii false false true true false true true false) String.EmptyString))),
+         String.String (Ascii.Ascii false true true true false true true false)
+           (String.String (Ascii.Ascii false false false false true true true false)
+              (String.String (Ascii.Ascii false true true true false true false false)
+                 (String.String (Ascii.Ascii false true true true false true true false)
+                    (String.String (Ascii.Ascii true false false false false true true false)
+                       (String.String (Ascii.Ascii false true true true false true true false) String.EmptyString))))))].
+Proof. exact @ApiGenEq.gen_call_2d_wiring. Qed.
+
+(* 3D *)
+Theorem C12_evaluation_hands_axes_and_grid_of_the_same_object_3d :
+  ApiGen.call_3d_binding =
+       [(String.String (Ascii.Ascii false false false true true true true false) String.EmptyString,
+         String.String (Ascii.Ascii true true false false true true true false)
+           (String.String (Ascii.Ascii true false true false false true true false)
+              (String.String (Ascii.Ascii false false true true false true true false)
+                 (String.String (Ascii.Ascii false true true false false true true false)
+                    (String.String (Ascii.Ascii false true true true false true false false)
+                       (String.String (Ascii.Ascii false true false true true true true false)
+                          (String.String (Ascii.Ascii true false false false false true true false)
+                             (String.String (Ascii.Ascii false false false true true true true false)
+                                (String.String (Ascii.Ascii true false false true false true true false)
+                                   (String.String (Ascii.Ascii true true false false true true true false)
+                                      String.EmptyString))))))))));
+        (String.String (Ascii.Ascii true false false true true true true false) String.EmptyString,
+         String.String (Ascii.Ascii true true false false true true true false)
+           (String.String (Ascii.Ascii true false true false false true true false)
+              (String.String (Ascii.Ascii false false true true false true true false)
+                 (String.String (Ascii.Ascii false true true false false true true false)
+                    (String.String (Ascii.Ascii false true true true false true false false)
+                       (String.String (Ascii.Ascii false false false true true true true false)
+                          (String.String (Ascii.Ascii true false false false false true true false)
+                             (String.String (Ascii.Ascii false false false true true true true false)
+                                (String.String (Ascii.Ascii true false false true false true true false)
+                                   (String.String (Ascii.Ascii true true false false true true true false)
+                                      String.EmptyString))))))))));
+        (String.String (Ascii.Ascii false true false true true true true false) String.EmptyString,
+         String.String (Ascii.Ascii true true false false true true true false)
+           (String.String (Ascii.Ascii true false true false false true true false)
+              (String.String (Ascii.Ascii false false true true false true true false)
+                 (String.String (Ascii.Ascii false true true false false true true false)
+                    (String.String (Ascii.Ascii false true true true false true false false)
+                       (String.String (Ascii.Ascii true false false true true true true false)
+                          (String.String (Ascii.Ascii true false false false false true true false)
+                             (String.String (Ascii.Ascii false false false true true true true false)
+                                (String.String (Ascii.Ascii true false false true false true true false)
+                                   (String.String (Ascii.Ascii true true false false true true true false)
+                                      String.EmptyString))))))))));
+        (String.String (Ascii.Ascii false true true false true true true false) String.EmptyString,
+         String.String (Ascii.Ascii true true false false true true true false)
+           (String.String (Ascii.Ascii true false true false false true true false)
+              (String.String (Ascii.Ascii false false true true false true true false)
+                 (String.String (Ascii.Ascii false true true false false true true false)
+                    (String.String (Ascii.Ascii false true true true false true false false)
+                       (String.String (Ascii.Ascii true true true true true false true false)
+                          (String.String (Ascii.Ascii true true true false false true true false)
+                             (String.String (Ascii.Ascii false true false false true true true false)
+                                (String.String (Ascii.Ascii true false false true false true true false)
+                                   (String.String (Ascii.Ascii false false true false false true true false)
+                                      String.EmptyString))))))))));
+        (String.String (Ascii.Ascii true false false false true true true false) String.EmptyString,
+         String.String (Ascii.Ascii false true true true false true true false)
+           (String.String (Ascii.Ascii false false false false true true true false)
+              (String.String (Ascii.Ascii false true true true false true false false)
+                 (String.String (Ascii.Ascii true false false false false true true false)
+                    (String.String (Ascii.Ascii true true false false true true true false)
+                       (String.String (Ascii.Ascii true false false false false true true false)
+                          (String.String (Ascii.Ascii false true false false true true true false)
+                             (String.String (Ascii.Ascii false true false false true true true false)
+                                (String.String (Ascii.Ascii true false false false false true true false)
+                                   (String.String (Ascii.Ascii true false false true true true true false)
+                                      (String.String (Ascii.Ascii false false false true false true false false)
+                                         (String.String (Ascii.Ascii false false false false true true true false)
+                                            (String.String (Ascii.Ascii true true true true false true true false)
+                                               (String.String (Ascii.Ascii true false false true false true true false)
+                                                  (String.String
+                                                     (Ascii.Ascii false true true true false true true false)
+                                                     (String.String
+                                                        (Ascii.Ascii false false true false true true true false)
+                                                        (String.String
+                                                           (Ascii.Ascii true true false false true true true false)
+                                                           (String.String
+                                                              (Ascii.Ascii false false true true false true false false)
+                                                              (String.String
+                                                                 (Ascii.Ascii false false false false false true false
+                                                                    false)
+                                                                 (String.String
+                                                                    (Ascii.Ascii false false true false false true true
+                                                                       false)
+                                                                    (String.String
+                                                                       (Ascii.Ascii false false true false true true
+                                                                          true false)
+                                                                       (String.String
+                                                                          (Ascii.Ascii true false false true true true
+                                                                             true false)
+                                                                          (String.String
+                                                                             (Ascii.Ascii false false false false true
+                                                                                true true false)
+                                                                             (String.String
+                                                                                (Ascii.Ascii true false true false
+                                                                                   false true true false)
+                                                                                (String.String
+                                                                                   (Ascii.Ascii true false true true
+                                                                                      true true false false)
+                                                                                   (String.String
+                                                                                      (Ascii.Ascii false true true true
+                                                                                         false true true false)
+                                                                                      (String.String
+                                                                                         (Ascii.Ascii false false false
+                                                                                          false true true true false)
+                                                                                         (String.String
+                                                                                          (Ascii.Ascii false true true
+                                                                                          true false true false false)
+                                                                                          (String.String
+                                                                                          (Ascii.Ascii false true true
+                                                                                          false false true true false)
+                                                                                          (String.String
+                                                                                          (Ascii.Ascii false false true
+                                                                                          true false true true false)
+                                                                                          (String.String
+                                                                                          (Ascii.Ascii true true true
+                                                                                          true false true true false)
+                                                                                          (String.String
+                                                                                          (Ascii.Ascii true false false
+                                                                                          false false true true false)
+                                                                                          (String.String
+                                                                                          (Ascii.Ascii false false true
+                                                                                          false true true true false)
+                                                                                          (String.String
+                                                                                          (Ascii.Ascii false true true
+                                                                                          false true true false false)
+                                                                                          (String.String
+                                                                                          (Ascii.Ascii false false true
+                                                                                          false true true false false)
+                                                                                          (String.String
+                                                                                          (Ascii.Ascii true false false
+                                                                                          true false true false false)
+                                                                                          String.EmptyString))))))))))))))))))))))))))))))))))));
+        (String.String (Ascii.Ascii false true true false false true true false)
+           (String.String (Ascii.Ascii false true true false true true true false)
+              (String.String (Ascii.Ascii true false false false false true true false)
+                 (String.String (Ascii.Ascii false false true true false true true false) String.EmptyString))),
+         String.String (Ascii.Ascii false true true false false true true false)
+           (String.String (Ascii.Ascii true false false true false true true false)
+              (String.String (Ascii.Ascii false false true true false true true false)
+                 (String.String (Ascii.Ascii false false true true false true true false)
+                    (String.String (Ascii.Ascii true true true true true false true false)
+                       (String.String (Ascii.Ascii false true true false true true true false)
+                          (String.String (Ascii.Ascii true false false false false true true false)
+                             (String.String (Ascii.Ascii false false true true false true true false)
+                                (String.String (Ascii.Ascii true false true false true true true false)
+                                   (String.String (Ascii.Ascii true false true false false true true false)
+                                      String.EmptyString))))))))))] /\
+       fst ApiGen.call_3d_call =
+       String.String (Ascii.Ascii true false false true false true true false)
+         (String.String (Ascii.Ascii false true true true false true true false)
+            (String.String (Ascii.Ascii false false true false true true true false)
+               (String.String (Ascii.Ascii true false true false false true true false)
+                  (String.String (Ascii.Ascii false true false false true true true false)
+                     (String.String (Ascii.Ascii false false false false true true true false)
+                        (String.String (Ascii.Ascii true true false false true true false false)
+                           (String.String (Ascii.Ascii false false true false false true true false) String.EmptyString))))))) /\
+       map fst ApiGen.call_3d_binding = ApiGen.interp3d_params /\
+       map snd ApiGen.call_3d_binding = snd ApiGen.call_3d_call /\
+       ApiGen.call_3d_params =
+       [String.String (Ascii.Ascii false false false false true true true false)
+          (String.String (Ascii.Ascii true true true true false true true false)
+             (String.String (Ascii.Ascii true false false true false true true false)
+                (String.String (Ascii.Ascii false true true true false true true false)
+                   (String.String (Ascii.Ascii false false true false true true true false)
+                      (String.String (Ascii.Ascii true true false false true true true false) String.EmptyString)))));
+        String.String (Ascii.Ascii false true true false false true true false)
+          (String.String (Ascii.Ascii true false false true false true true false)
+             (String.String (Ascii.Ascii false false true true false true true false)
+                (String.String (Ascii.Ascii false false true true false true true false)
+                   (String.String (Ascii.Ascii true true true true true false true false)
+                      (String.String (Ascii.Ascii false true true false true true true false)
+                         (String.String (Ascii.Ascii true false false false false true true false)
+                            (String.String (Ascii.Ascii false false true true false true true false)
+                               (String.String (Ascii.Ascii true false true false true true true false)
+                                  (String.String (Ascii.Ascii true false true false false true true false)
+                                     (String.String (Ascii.Ascii true false true true true true false false)
+                                        (String.String (Ascii.Ascii false true true true false true true false)
+                                           (String.String (Ascii.Ascii false false false false true true true false)
+                                              (String.String (Ascii.Ascii false true true true false true false false)
+                                                 (String.String
+                                                    (Ascii.Ascii false true true true false true true false)
+                                                    (String.String
+                                                       (Ascii.Ascii true false false false false true true false)
+                                                       (String.String
+                                                          (Ascii.Ascii false true true true false true true false)
+                                                          String.EmptyString))))))))))))))))] /\
+       ApiGen.interp3d_defaults =
+       [(String.String (Ascii.Ascii false true true false false true true false)
+           (String.String (Ascii.Ascii false true true false true true true false)
+              (String.String (Ascii.Ascii true false false false false true true false)
+                 (String.String (Ascii.Ascii false false true true false true true false) String.EmptyString))),
+         String.String (Ascii.Ascii false true true true false true true false)
+           (String.String (Ascii.Ascii false false false false true true true false)
+              (String.String (Ascii.Ascii false true true true false true false false)
+                 (String.String (Ascii.Ascii false true true true false true true false)
+                    (String.String (Ascii.Ascii true false false false false true true false)
+                       (String.String (Ascii.Ascii false true true true false true true false) String.EmptyString))))))].
+Proof. exact @ApiGenEq.gen_call_3d_wiring. Qed.
+
 Print Assumptions C12_sweep_ok_2d.
 Print Assumptions C12_sweep2d_ok.
 Print Assumptions C12_sweep_ok_3d.
@@ -543,3 +1279,9 @@ Print Assumptions C12_on_node_law_binary64.
 Print Assumptions C12_solve2d_ok_binary64.
 Print Assumptions C12_sign_invariant_3d.
 Print Assumptions C12_gradient_assembly_ok_3d.
+Print Assumptions C12_axes_have_the_length_of_the_current_shape_2d_z.
+Print Assumptions C12_axes_have_the_length_of_the_current_shape_2d_x.
+Print Assumptions C12_axes_have_the_length_of_the_current_shape_3d_y.
+Print Assumptions C12_axes_are_computed_from_stored_attributes_on_every_access.
+Print Assumptions C12_evaluation_hands_axes_and_grid_of_the_same_object_2d.
+Print Assumptions C12_evaluation_hands_axes_and_grid_of_the_same_object_3d.
